@@ -2,6 +2,7 @@
 import asyncio
 import functools as ft
 from inspect import isawaitable, iscoroutinefunction
+from types import GeneratorType
 from typing import (
     Any,
     AsyncIterable,
@@ -186,6 +187,12 @@ def _isawaitable_fast(value, cache={}, __isawaitable=isawaitable):
     # This is faster than the default isawaitable which is benefitial for the
     # hot loops required when resolving large objects.
     t = type(value)
+    if t is GeneratorType:
+        # The one type for which the answer depends on the instance: a plain
+        # generator (lazily produced list) is not awaitable, a generator based
+        # coroutine (``types.coroutine``) is. Memoising it made the outcome
+        # depend on which of the two the process had met first.
+        return __isawaitable(value)
     try:
         return cache[t]
     except KeyError:
